@@ -1,6 +1,8 @@
 package main
 
 import (
+	"time"
+	"context"
 	"bytes"
 	"encoding/json"
 	"fmt"
@@ -394,12 +396,20 @@ func runC20(e *env) {
 		return
 	}
 	in, _ := json.Marshal(cfgs)
-	cmd := exec.Command(bin, scratchDir("c20run"))
+	// a request that never returns (a lock never released) must not hang the check
+	drvCtx, drvCancel := context.WithTimeout(context.Background(), 4*time.Minute)
+	defer drvCancel()
+	cmd := exec.CommandContext(drvCtx, bin, scratchDir("c20run"))
 	cmd.Stdin = bytes.NewReader(in)
 	cmd.Env = append(os.Environ(), "GORACE=halt_on_error=0 exitcode=0")
 	var stdout, stderr bytes.Buffer
 	cmd.Stdout, cmd.Stderr = &stdout, &stderr
 	runErr := cmd.Run()
+	if drvCtx.Err() != nil {
+		e.m.fail(oracleFailure{What: "the concurrent FormatFile requests did not all return within 4 minutes: some request blocks for ever (a lock that is not released?)", Input: cfgs, Got: tail(stderr.String(), 3000)})
+		e.writeC20(prog, nil, nil, nil)
+		return
+	}
 	var results []c20res
 	if err := json.Unmarshal(stdout.Bytes(), &results); err != nil || runErr != nil || len(results) != len(cfgs) {
 		e.m.fail(oracleFailure{What: fmt.Sprintf("the -race driver failed: %v %v", runErr, err), Input: cfgs, Got: tail(stderr.String(), 3000)})
@@ -456,7 +466,9 @@ func c20CLI(e *env) {
 		}
 		outDir := filepath.Join(dir, fmt.Sprintf("out%d", si))
 		os.MkdirAll(outDir, 0o755)
-		cmd := exec.Command(bin, "models.go", "go/randdata:"+filepath.Join(outDir, "gen.go"), "typescript/types:"+filepath.Join(outDir, "gen.ts"))
+		cliCtx, cliCancel := context.WithTimeout(context.Background(), 3*time.Minute)
+		defer cliCancel()
+		cmd := exec.CommandContext(cliCtx, bin, "models.go", "go/randdata:"+filepath.Join(outDir, "gen.go"), "typescript/types:"+filepath.Join(outDir, "gen.ts"))
 		cmd.Dir = mod
 		env := []string{"PATH=" + fake + ":" + goDir + ":/usr/bin:/bin", "HOME=" + os.Getenv("HOME"), "GORACE=halt_on_error=0 exitcode=0"}
 		for _, kv := range os.Environ() {
@@ -468,6 +480,10 @@ func c20CLI(e *env) {
 		var outb bytes.Buffer
 		cmd.Stdout, cmd.Stderr = &outb, &outb
 		err := cmd.Run()
+		if cliCtx.Err() != nil {
+			e.m.fail(oracleFailure{What: "the command did not end within 3 minutes (it hangs waiting for its formatters)", Input: map[string]interface{}{"scenario": si}, Got: tail(outb.String(), 2000)})
+			continue
+		}
 		failed := err != nil
 		text := outb.String()
 		e.m.Evaluations++
@@ -675,7 +691,9 @@ func c20Dart(e *env, dir, bin, mod, goDir string) {
 				os.Remove(f)
 			}
 		}
-		cmd := exec.Command(bin, "models.go", "dart:"+outDir)
+		dartCtx, dartCancel := context.WithTimeout(context.Background(), 3*time.Minute)
+		defer dartCancel()
+		cmd := exec.CommandContext(dartCtx, bin, "models.go", "dart:"+outDir)
 		cmd.Dir = mod
 		env := []string{"PATH=" + fake + ":" + goDir + ":/usr/bin:/bin", "HOME=" + os.Getenv("HOME"), "GORACE=halt_on_error=0 exitcode=0"}
 		for _, kv := range os.Environ() {
@@ -687,6 +705,10 @@ func c20Dart(e *env, dir, bin, mod, goDir string) {
 		var outb bytes.Buffer
 		cmd.Stdout, cmd.Stderr = &outb, &outb
 		err := cmd.Run()
+		if dartCtx.Err() != nil {
+			e.m.fail(oracleFailure{What: "the command (dart output) did not end within 3 minutes (it hangs waiting for its formatters)", Input: "dart scenario", Got: tail(outb.String(), 2000)})
+			continue
+		}
 		text := outb.String()
 		e.m.Evaluations++
 		e.m.OracleRuns++
